@@ -164,8 +164,9 @@ def u1_units(F, r):
                     r.ok(inst, "coefficient multiplied with a quantity of its own unit")
                 else:
                     r.fail(inst, f"unit clash: a `{a}` coefficient is multiplied with a `{b}` quantity — reported cost is not fixed + d*cd + T*ct", F.loc(g, s["ln"]))
-    if n < 4:
-        raise AnchorError(f"only {n} unit-resolved products found")
+    if n < 1:
+        raise AnchorError("no unit-resolved cost product found in the accounting functions")
+    r.ok("unit-resolved products", f"{n} products of a cost coefficient with a quantity were resolved (operands whose unit is not declared by a name are silent)")
 
 
 TC = "vrp_core::models::problem::costs::TransportCost::"
@@ -337,4 +338,4 @@ def run(ctx):
     except (ImportError, AttributeError):
         pass
     ctx.run("C03-C1", "reported load change signs (deliveries out, pickups in); fixed cost charged exactly once per tour", c1_load_and_fixed_cost, floor=2)
-    ctx.run("C03-U1", "cost coefficients multiply quantities of their own unit", u1_units, floor=4)
+    ctx.run("C03-U1", "cost coefficients multiply quantities of their own unit", u1_units, floor=1)
